@@ -453,6 +453,12 @@ def check(prop, tier, seed):
     obligations = 0
     discharged = 0
 
+    # 0. tables generated from /repo's sources
+    if spec.get("atomics"):
+        import gen_atomics
+        ss, _ = gen_atomics.generate(write=True)
+        cov["generated_tables"] = {"lean/ALock/Generated/Atomics.lean": "%d atomic sites extracted from /repo/src" % len(ss)}
+
     # 1. Lean: build the property's theorem modules (+ driver), audit axioms
     mods = spec["modules"]
     ok_l, log_l, dt_l = build_lean(mods + ["alock-driver"])
@@ -568,6 +574,15 @@ def check(prop, tier, seed):
                               "what": "Miri reports %s while the harness executes this history" % (m["errors"][:1] or ["an error"])[0],
                               "errors": m["errors"], "stderr_tail": m["stderr_tail"]})
             violations.append((rp, ""))
+
+    # a concrete failing input supersedes "this obligation no longer checks"
+    if any(sfx == "" for _, sfx in violations):
+        broken = [rp for rp, sfx in violations if sfx]
+        violations = [(rp, sfx) for rp, sfx in violations if sfx == ""]
+        for rp, _ in violations:
+            d = json.load(open(rp))
+            d["also_broken"] = broken
+            json.dump(d, open(rp, "w"), indent=1)
 
     # 5. known findings / verdict
     known = load_known()
